@@ -576,7 +576,10 @@ ApplyDir(rules, d) ==
     [] d.d = "SecRuleRemoveByMsg"      -> SelectSeq(rules, LAMBDA r : ~(r.msg # "" /\ r.msg = d.s))
     [] d.d = "SecRuleUpdateTargetById" -> [k \in 1..Len(rules) |-> IF DirSelectsById(d, rules[k]) THEN UpdRuleTargets(rules[k], d.tgts) ELSE rules[k]]
     [] d.d = "SecRuleUpdateTargetByTag" -> [k \in 1..Len(rules) |-> IF HasTag(rules[k], d.s) THEN UpdRuleTargets(rules[k], d.tgts) ELSE rules[k]]
-    [] d.d = "SecRuleUpdateActionById" -> [k \in 1..Len(rules) |-> IF DirSelectsById(d, rules[k]) THEN UpdRuleActions(rules[k], d.acts) ELSE rules[k]]
+    [] d.d = "SecRuleUpdateActionById" ->
+         \* "block" stands for the disruptive action of the default actions (pass when there are none), as in a rule written with it
+         LET acts == [j \in 1..Len(d.acts) |-> IF d.acts[j].a = "block" THEN [d.acts[j] EXCEPT !.a = IF d.def = "" THEN "pass" ELSE d.def] ELSE d.acts[j]] IN
+         [k \in 1..Len(rules) |-> IF DirSelectsById(d, rules[k]) THEN UpdRuleActions(rules[k], acts) ELSE rules[k]]
     [] OTHER -> rules
 \* an update that names rules by id none of which exists (any more) at that point of the configuration: whether
 \* that is an error or a no-op is left open (Choice_UpdateOfMissingRule: the code refuses the configuration)
